@@ -559,14 +559,20 @@ mod internal {
             let step = self.settings.core().linesearch_backtrack_step;
             let mut α = αinit;
 
+            #[cfg(clarabel_verif)]
+            crate::verif::emit_simple("BarrierSearch", &[], &[crate::verif::f64_of(αinit), crate::verif::f64_of(step)]);
             for _ in 0..50 {
                 let barrier = self.variables.barrier(&self.step_lhs, α, &mut self.cones);
                 if barrier < T::one() {
+                    #[cfg(clarabel_verif)]
+                    crate::verif::emit_simple("BarrierResult", &[1], &[crate::verif::f64_of(α)]);
                     return α;
                 } else {
                     α = step * α;
                 }
             }
+            #[cfg(clarabel_verif)]
+            crate::verif::emit_simple("BarrierResult", &[0], &[crate::verif::f64_of(α)]);
             α
         }
 
